@@ -394,6 +394,20 @@ def rule_root1(A: Analysis, rep):
                 g.all_paths_pass(be, trav[0], sets, skip_labels=skip)
             det = "candidate/traversal guards %s / %s" % ([fmt_conj(c) for c in g1], [fmt_conj(c) for c in g2])
     rep.check(ok, "ROOT1", "every unvisited loaded task becomes a candidate and is traversed", fi.node, "", det)
+    # each validation starts from nothing: the visited set and the candidate table are created empty by this call.  State
+    # kept on the index would make a second validation (the explorer validates on every request) skip what the first one
+    # marked before it raised, and accept a graph it has just rejected.
+    if ok:
+        vis = list(g1[0])[0][0][len("in(%s," % t):-1]
+        fresh_ok = True
+        for nm_ in (vis, cand):
+            d_ = A.single_def_value(fi, nm_) if nm_ and nm_.isidentifier() else None
+            dn_ = [n for n in g.nodes if n.kind == "stmt" and isinstance(n.ast, (ast.Assign, ast.AnnAssign)) and n.ast.value is not None
+                   and norm(n.ast.targets[0] if isinstance(n.ast, ast.Assign) else n.ast.target) == nm_]
+            if d_ is None or norm(d_) not in ("set()", "{}", "dict()") or len(dn_) != 1 or not g.all_paths_pass(g.entry, hdr, dn_, skip_labels=is_exc):
+                fresh_ok = False
+        rep.check(fresh_ok, "ROOT1", "validation state is created by the call", fi.node, "visited set and candidate table are fresh locals",
+                  "`%s` / `%s` are not both locals created empty by this call: marks left by an earlier (failed) validation survive into the next one" % (vis, cand))
     ok = False
     if dt is not None and cand:
         incs = [s for s in walk_local(dt.node) if isinstance(s, ast.AugAssign) and norm(s.target).startswith(cand + "[") and isinstance(s.op, ast.Add) and norm(s.value) == "1"]
